@@ -167,6 +167,11 @@ def run (c : Json) : E Json := do
       stats := { stats with jwksReads := stats.jwksReads + 1,
                             publishedKeys := stats.publishedKeys + (published ((live hs).map (·.st))).length }
       out := out ++ [jwksJson hs]
+    | "alg" =>
+      -- `Entry.CheckJOSESupport` / `Entry.JOSEAlgorithm` for one key of the case
+      let some key := keys[← nat op "k"]? | throw "bad key index"
+      out := out ++ [Json.mkObj [("supported", Json.bool (joseAlg key.pub).isSome),
+        ("alg", jstr ((joseAlg key.pub).getD "panic"))]]
     | "reload" =>
       let i ← nat op "h"
       match hs[i]? with
